@@ -113,6 +113,12 @@ class Msg:
                 bk = "large"
         else:
             bk = "none"
+        # the Connection header actually on the wire decides persistence (C12 reference)
+        conn_value = self.conn
+        for n_, v_ in hdrs:
+            if n_.lower() == "connection":
+                conn_value = v_.strip(" \t")
+                break
         a = self.plan["ans"]
         how = a["how"]
         st = a.get("status", 200)
@@ -135,7 +141,7 @@ class Msg:
             "exp": exp,
             "plan": self.plan if self.cls == "ok" else None,
             "ishead": self.method == "HEAD",
-            "j": {"cls": self.cls, "why": self.why, "last": bool(self.cls == "ok" and ref_last(self.version, self.conn)),
+            "j": {"cls": self.cls, "why": self.why, "last": bool(self.cls == "ok" and ref_last(self.version, conn_value)),
                   "bk": bk, "blen": self.body_len, "exp": bool(expects), "how": how, "st": st, "rlen": rlen,
                   "nobody": bool(nobody), "wflush": bool(wflush), "noframe": bool(noframe)},
         }
